@@ -37,6 +37,9 @@ def corpus(pid, tier, seed):
         out += exprgen_programs(tier, seed)
     if pid == "C18":
         out += exprgen_programs(tier, seed, pairs=True) + small_int_programs()
+    only = os.environ.get("VERIF_ONLY_ORIGIN")   # development aid: one generator layer / family, uncapped
+    if only:
+        out = [p for p in proggen.generate(tier, seed)[0] + out if p["origin"].startswith(only)]
     return out
 
 
